@@ -11,7 +11,8 @@
 (* (static_storage does not satisfy the Storage concept -- its dealloc is  *)
 (* not static -- and cannot be instantiated; it is not modelled.)          *)
 (*                                                                         *)
-(* One module, the policy is a CONSTANT.  The model keeps exactly the      *)
+(* One module; the policy is chosen in the initial state (env.pol) from    *)
+(* the CONSTANT set Policies.  The model keeps exactly the                 *)
 (* bookkeeping the code keeps and decides from it the way the code does:   *)
 (*   ptr / cap   reusable: _ptr/_capacity; buffer: the vector's block and  *)
 (*               size in bytes; stack: the shared size_t `_state` (cap);   *)
@@ -42,19 +43,22 @@
 (***************************************************************************)
 EXTENDS Naturals, Sequences, FiniteSets, TLC
 
-CONSTANTS Policy,     \* "default" | "reusable" | "mtsafe" | "stack" | "placement" | "buffer" | "extra"
+CONSTANTS Policies,   \* subset of {"default","reusable","mtsafe","stack","placement","buffer","extra"}
           Threads,    \* {t1}: sequential; {t1, t2}: two threads on one reusable_storage_mtsafe
           MaxCreate,  \* bound on the number of frames ever created
-          MaxLive,    \* bound on simultaneously live frames (1 for reusable / placement / buffer:
-                      \* these policies serve one frame at a time -- documented precondition)
+          MaxOverlap, \* bound on simultaneously live frames for the policies that permit overlapping
+                      \* lifetimes (default, mtsafe, stack, extra).  reusable / placement / buffer serve
+                      \* ONE live frame at a time -- documented precondition, not generated otherwise
           Classes,    \* frame-size classes that are created (subset of 1..3)
-          Trailer,    \* bytes the policy puts behind the frame
-          InitSize,   \* stack: initial shared state; buffer: initial size; placement: buffer size
+          StackInits, \* stack: initial values of the shared size_t
+          BufferInits,\* buffer: initial sizes of the caller's vector
+          PlaceInits, \* placement: sizes of the caller's buffer
           NSlots,     \* size of the bounded heap
           Grain,      \* "call" | "atomic" | "alloc"
           Fixed       \* see above
 
-VARIABLES heap,   \* [1..NSlots -> Nat]: 0 = free, otherwise the size the block was requested with
+VARIABLES env,    \* [pol, init]: the policy and its initial size parameter; never changes
+          heap,   \* [1..NSlots -> Nat]: 0 = free, otherwise the size the block was requested with
           fr,     \* sequence of frame records in order of creation (= order in which alloc returned)
           ptr,    \* slot of the policy's own block (0 = nullptr)
           cap,    \* the policy's size bookkeeping (see above)
@@ -65,7 +69,14 @@ VARIABLES heap,   \* [1..NSlots -> Nat]: 0 = free, otherwise the size the block 
           inv,    \* extra: frame whose attached object `storage.inventory` designates (0 = none)
           torn    \* the storage object has been destroyed
 
-vars == <<heap, fr, ptr, cap, busy, pc, news, dels, dbl, inv, torn>>
+vars == <<env, heap, fr, ptr, cap, busy, pc, news, dels, dbl, inv, torn>>
+
+Policy == env.pol
+InitSize == env.init
+(* bytes the policy puts behind the frame: the owner pointer, the flag byte, sizeof(T) of the replayer's T *)
+Trailer == CASE Policy = "mtsafe" -> 8 [] Policy = "stack" -> 1 [] Policy = "extra" -> 16 [] OTHER -> 0
+MaxLive == IF Policy \in {"default", "mtsafe", "stack", "extra"} THEN MaxOverlap ELSE 1
+InitChoices(p) == CASE p = "stack" -> StackInits [] p = "buffer" -> BufferInits [] p = "placement" -> PlaceInits [] OTHER -> {0}
 
 Sz(c) == 100 * c
 Slots == 1..NSlots
@@ -110,7 +121,9 @@ Gone(r) ==
     [c |-> 0, live |-> FALSE, where |-> "gone", slot |-> 0, blk |-> 0, tr |-> "gone", sh |-> FALSE,
      ct |-> r.ct, dt |-> r.dt + (IF Policy = "extra" THEN 1 ELSE 0)]
 
-Init == /\ heap = [s \in Slots |-> IF Policy = "buffer" /\ InitSize > 0 /\ s = 1 THEN InitSize ELSE 0]
+Init == /\ env \in {[pol |-> p, init |-> i] : p \in Policies, i \in UNION {InitChoices(q) : q \in Policies}}
+        /\ env.init \in InitChoices(env.pol)
+        /\ heap = [s \in Slots |-> IF Policy = "buffer" /\ InitSize > 0 /\ s = 1 THEN InitSize ELSE 0]
         /\ ptr = IF Policy = "buffer" /\ InitSize > 0 THEN 1 ELSE 0
         /\ cap = IF Policy \in {"buffer", "stack", "placement"} THEN InitSize ELSE 0
         /\ fr = <<>>
@@ -124,9 +137,9 @@ SeqCreate(c) ==
     CASE Policy = "default" ->       \* with_allocator.h:84
            <<DoNew(St, Sz(c)), Rec(c, "heap", Lowest(heap), Sz(c), "none", FALSE)>>
       [] Policy = "reusable" ->      \* coro_storage.h:48
-           LET S == ReuseAlloc(St, Sz(c)) IN <<S, Rec(c, "heap", S.ptr, S.cap, "none", TRUE)>>
+           LET S == ReuseAlloc(St, Sz(c)) IN <<S, Rec(c, "heap", S.ptr, S.heap[S.ptr], "none", TRUE)>>
       [] Policy = "buffer" ->        \* coro_storage.h:202
-           LET S == BufAlloc(St, Sz(c)) IN <<S, Rec(c, "heap", S.ptr, S.cap, "none", TRUE)>>
+           LET S == BufAlloc(St, Sz(c)) IN <<S, Rec(c, "heap", S.ptr, S.heap[S.ptr], "none", TRUE)>>
       [] Policy = "placement" ->     \* coro_storage.h:136: returns _p whatever the size
            <<St, Rec(c, "place", 0, cap, "none", TRUE)>>
       [] Policy = "stack" ->         \* alloca_storage.h:38-50; _alloc_size = _state at construction
@@ -161,14 +174,15 @@ MtCreate(t, c) ==
                      /\ fr' = Append(fr, Rec(c, "heap", Lowest(heap), sz, "own", FALSE))
                      /\ UNCHANGED pc
          ELSE IF sz <= cap
-           THEN /\ fr' = Append(fr, Rec(c, "heap", ptr, cap, "own", TRUE))
+           THEN \* the block _ptr designates is taken as it is (blk: what is really allocated there)
+                /\ fr' = Append(fr, Rec(c, "heap", ptr, heap[ptr], "own", TRUE))
                 /\ Same /\ UNCHANGED pc
          ELSE IF Grain = "alloc"
            THEN /\ Park(t, IF Fixed \/ ptr = 0 THEN "new_shared" ELSE "del_old", c, 0)
                 /\ Same /\ UNCHANGED fr
            ELSE LET S == Grow(St, sz) IN
                 /\ Commit(S)
-                /\ fr' = Append(fr, Rec(c, "heap", S.ptr, S.cap, "own", TRUE))
+                /\ fr' = Append(fr, Rec(c, "heap", S.ptr, S.heap[S.ptr], "own", TRUE))
                 /\ UNCHANGED pc
 
 Create(t, c) ==
@@ -252,12 +266,14 @@ Teardown ==
     /\ IF Policy \in {"reusable", "mtsafe", "buffer"}
          THEN Commit([DoDel(St, ptr) EXCEPT !.ptr = 0, !.cap = 0])
          ELSE Same
-    /\ UNCHANGED <<fr, busy, pc, inv>>
+    /\ inv' = 0
+    /\ UNCHANGED <<fr, busy, pc>>
 
-Next == \/ \E t \in Threads, c \in 1..3 : Create(t, c)
-        \/ \E t \in Threads, f \in 1..MaxCreate : Complete(t, f)
-        \/ \E t \in Threads : New(t) \/ Del(t) \/ Store(t)
-        \/ Teardown
+Next == /\ \/ \E t \in Threads, c \in 1..3 : Create(t, c)
+           \/ \E t \in Threads, f \in 1..MaxCreate : Complete(t, f)
+           \/ \E t \in Threads : New(t) \/ Del(t) \/ Store(t)
+           \/ Teardown
+        /\ UNCHANGED env
 
 Spec == Init /\ [][Next]_vars
 
@@ -274,11 +290,16 @@ Region(f) == CASE fr[f].where = "heap" -> <<"heap", fr[f].slot>>
                [] fr[f].where = "stack" -> <<"stack", f>>
                [] OTHER -> <<fr[f].where, 0>>
 
-(* no two simultaneously live frames in the same memory, and the memory of a live frame is still
-   allocated with the size it had when the frame was placed in it *)
-Exclusive ==
-    /\ \A f, g \in Live : f # g => Region(f) # Region(g)
-    /\ \A f \in Live : fr[f].where = "heap" => heap[fr[f].slot] = fr[f].blk
+(* no two simultaneously live frames in the same memory ... *)
+Exclusive == \A f, g \in Live : f # g => Region(f) # Region(g)
+
+(* ... and the memory of a live frame stays allocated, with the size it had when the frame was placed in it *)
+BlockAlive == \A f \in Live : fr[f].where = "heap" => (heap[fr[f].slot] # 0 /\ heap[fr[f].slot] = fr[f].blk)
+
+(* outside of alloc the policy's size bookkeeping describes its block *)
+BookkeepingTruthful ==
+    (Policy \in {"reusable", "mtsafe", "buffer"} /\ \A t \in Threads : pc[t].at \notin {"del_old", "new_shared", "del_after"})
+        => IF ptr = 0 THEN cap = 0 ELSE heap[ptr] = cap
 
 (* the memory is at least as large as the frame plus what the policy puts behind it *)
 LargeEnough == \A f \in Live : fr[f].blk >= Sz(fr[f].c) + Trailer
